@@ -253,4 +253,347 @@ theorem forget_run (c : TConn) (ops : List ConnOp) : (trun true c ops).forget = 
     show (trun true (tstep true c op) ops).forget = connRun (connStep c.forget op) ops
     rw [ih, forget_step]
 
+/-! ### 5. upgrade kinds and `c.flateWriter` (round 11) -/
+
+theorem krun_cons (tr : Tree) (c : KConn) (op : KOp) (ops : List KOp) :
+    krun tr c (op :: ops) = krun tr (kstep tr c op) ops := rfl
+
+theorem kstep_t (tr : Tree) (c : KConn) (op : KOp) : (kstep tr c op).t = tstep tr.rebufferKeeps c.t op.forget := by
+  cases op with
+  | sendResponse f => rfl
+  | sendMessage f => rfl
+  | flush => rfl
+  | setOutputBuffer n => rfl
+  | upgrade k n =>
+    cases k <;> by_cases hs : c.t.subscribed = true <;> simp [kstep, KOp.forget, tstep, hs]
+  | subscribe => rfl
+
+/-- the frame-level connection of the kinded model IS the round-8 model: every theorem about `trun` lifts -/
+theorem krun_t (tr : Tree) (c : KConn) (ops : List KOp) :
+    (krun tr c ops).t = trun tr.rebufferKeeps c.t (ops.map KOp.forget) := by
+  induction ops generalizing c with
+  | nil => rfl
+  | cons op ops ih =>
+    rw [krun_cons, ih, kstep_t]; rfl
+
+theorem tstep_top_upgrade (fixed : Bool) (c : TConn) (n : Nat) (hs : c.subscribed = false) :
+    (tstep fixed c (.upgrade n)).top = c.top + 1 := by simp [tstep, hs]
+
+theorem tstep_top_other (fixed : Bool) (c : TConn) (op : ConnOp) (hup : ∀ n, op ≠ .upgrade n) :
+    (tstep fixed c op).top = c.top := by
+  cases op with
+  | sendResponse f => rfl
+  | sendMessage f => simp only [tstep]; split <;> rfl
+  | flush => rfl
+  | setOutputBuffer size =>
+    simp only [tstep]
+    split
+    · rfl
+    · split <;> rfl
+  | upgrade size => exact absurd rfl (hup size)
+  | subscribe => rfl
+
+/-- the flate writer, if any, is the current stack's own; nothing stray has been written -/
+def Clean (c : KConn) : Prop := (∀ w, c.fw = some w → w.stack = c.t.top) ∧ c.stray = []
+
+theorem clean_kconn0 (cap : Nat) : Clean (kconn0 cap) := by simp [Clean, kconn0]
+
+theorem clean_mark (c : KConn) (t' : TConn) (h : Clean c) (ht : t'.top = c.t.top) : c.mark t' = [] := by
+  unfold KConn.mark
+  cases hf : c.fw with
+  | none => rfl
+  | some w => simp [h.1 w hf, ht]
+
+/-- a tree in which BOTH other upgrades drop `c.flateWriter` (F30 + F30b) never has a stale one -/
+theorem clean_step (tr : Tree) (hs : tr.snappyClears = true) (ht : tr.tlsClears = true) (c : KConn) (op : KOp)
+    (h : Clean c) : Clean (kstep tr c op) := by
+  cases op with
+  | sendResponse f =>
+    have hm := clean_mark c (tstep tr.rebufferKeeps c.t (.sendResponse f)) h rfl
+    exact ⟨h.1, by simp [kstep, hm, h.2]⟩
+  | sendMessage f =>
+    refine ⟨?_, h.2⟩
+    intro w hw
+    have := h.1 w hw
+    simp only [kstep]
+    rw [tstep_top_other _ _ _ (by intro n; simp)]; exact this
+  | flush =>
+    have hm := clean_mark c (tstep tr.rebufferKeeps c.t .flush) h rfl
+    exact ⟨h.1, by simp [kstep, hm, h.2]⟩
+  | setOutputBuffer n =>
+    refine ⟨?_, h.2⟩
+    intro w hw
+    have := h.1 w hw
+    simp only [kstep]
+    rw [tstep_top_other _ _ _ (by intro n; simp)]; exact this
+  | upgrade k n =>
+    by_cases hsub : c.t.subscribed = true
+    · cases k <;> simp only [kstep, hsub, if_true] <;> exact h
+    · have hsub' : c.t.subscribed = false := by simpa using hsub
+      cases k with
+      | tls => simp only [kstep, hsub', ht, if_true]; exact ⟨(by intro w hw; cases hw), h.2⟩
+      | snappy => simp only [kstep, hsub', hs, if_true]; exact ⟨(by intro w hw; cases hw), h.2⟩
+      | deflate =>
+        simp only [kstep, hsub']
+        refine ⟨?_, h.2⟩
+        intro w hw
+        simp only [Bool.false_eq_true, if_false, Option.some.injEq] at hw
+        subst hw
+        simp [tstep_top_upgrade _ _ _ hsub']
+  | subscribe => exact ⟨h.1, h.2⟩
+
+theorem clean_run (tr : Tree) (hs : tr.snappyClears = true) (ht : tr.tlsClears = true) (c : KConn) (ops : List KOp)
+    (h : Clean c) : Clean (krun tr c ops) := by
+  induction ops generalizing c with
+  | nil => exact h
+  | cons op ops ih => exact ih _ (clean_step tr hs ht c op h)
+
+/-- in EVERY tree: a flate writer writes to a layer below its own stack, which is at most the client's; so a stray
+marker never lands on the transport the client decodes with -/
+def Layered (c : KConn) : Prop :=
+  (∀ w, c.fw = some w → w.layer < w.stack ∧ w.stack ≤ c.t.top) ∧ c.layer ≤ c.t.top ∧ ∀ s ∈ c.stray, s.dest < s.want
+
+theorem layered_kconn0 (cap : Nat) : Layered (kconn0 cap) := by simp [Layered, kconn0, tconn0]
+
+theorem layered_mark (c : KConn) (t' : TConn) (h : Layered c) (ht : t'.top = c.t.top) :
+    ∀ s ∈ c.stray ++ c.mark t', s.dest < s.want := by
+  intro s hs
+  rw [List.mem_append] at hs
+  rcases hs with hs | hs
+  · exact h.2.2 s hs
+  · unfold KConn.mark at hs
+    cases hf : c.fw with
+    | none => simp [hf] at hs
+    | some w =>
+      have := h.1 w hf
+      by_cases hw : w.stack = t'.top
+      · simp [hf, hw] at hs
+      · simp only [hf, hw, if_false, List.mem_singleton] at hs
+        subst hs
+        show w.layer < t'.top
+        omega
+
+theorem layered_step (tr : Tree) (c : KConn) (op : KOp) (h : Layered c) : Layered (kstep tr c op) := by
+  cases op with
+  | sendResponse f => exact ⟨h.1, h.2.1, layered_mark c _ h rfl⟩
+  | sendMessage f =>
+    have ht : (tstep tr.rebufferKeeps c.t (.sendMessage f)).top = c.t.top := tstep_top_other _ _ _ (by intro n; simp)
+    exact ⟨by simpa [kstep, ht] using h.1, by simpa [kstep, ht] using h.2.1, h.2.2⟩
+  | flush => exact ⟨h.1, h.2.1, layered_mark c _ h rfl⟩
+  | setOutputBuffer n =>
+    have ht : (tstep tr.rebufferKeeps c.t (.setOutputBuffer n)).top = c.t.top := tstep_top_other _ _ _ (by intro n; simp)
+    exact ⟨by simpa [kstep, ht] using h.1, by simpa [kstep, ht] using h.2.1, h.2.2⟩
+  | upgrade k n =>
+    by_cases hsub : c.t.subscribed = true
+    · cases k <;> simp only [kstep, hsub, if_true] <;> exact h
+    · have hsub' : c.t.subscribed = false := by simpa using hsub
+      have ht := tstep_top_upgrade tr.rebufferKeeps c.t n hsub'
+      obtain ⟨h1, h2, h3⟩ := h
+      cases k with
+      | tls =>
+        simp only [kstep, hsub', Bool.false_eq_true, if_false]
+        refine ⟨?_, by simp [ht], h3⟩
+        intro w hw
+        rw [ht]
+        by_cases hc : tr.tlsClears = true
+        · simp [hc] at hw
+        · simp only [hc] at hw
+          have := h1 w hw; omega
+      | snappy =>
+        simp only [kstep, hsub', Bool.false_eq_true, if_false]
+        refine ⟨?_, (by show c.layer ≤ _; rw [ht]; omega), h3⟩
+        intro w hw
+        rw [ht]
+        by_cases hc : tr.snappyClears = true
+        · simp [hc] at hw
+        · simp only [hc] at hw
+          have := h1 w hw; omega
+      | deflate =>
+        simp only [kstep, hsub', Bool.false_eq_true, if_false]
+        refine ⟨?_, (by show c.layer ≤ _; rw [ht]; omega), h3⟩
+        intro w hw
+        simp only [Option.some.injEq] at hw
+        subst hw
+        rw [ht]; simp; omega
+  | subscribe => exact h
+
+theorem layered_run (tr : Tree) (c : KConn) (ops : List KOp) (h : Layered c) : Layered (krun tr c ops) := by
+  induction ops generalizing c with
+  | nil => exact h
+  | cons op ops ih => exact ih _ (layered_step tr c op h)
+
+/-- the clause with markers = the frame clause + "no stale flate writer has ever been flushed" -/
+theorem kOnNegotiated_iff (c : KConn) (h : Layered c) : c.OnNegotiated ↔ c.t.OnNegotiated ∧ c.stray = [] := by
+  constructor
+  · intro ⟨h1, h2⟩
+    refine ⟨h1, ?_⟩
+    cases hs : c.stray with
+    | nil => rfl
+    | cons s rest =>
+      have a := h2 s (by simp [hs])
+      have b := h.2.2 s (by simp [hs])
+      omega
+  · intro ⟨h1, h2⟩
+    exact ⟨h1, by simp [h2]⟩
+
+/-! which orders leave a stale writer on the d6aa4e3 tree -/
+
+/-- the d6aa4e3 tree's `c.flateWriter` and upgrade count are a function of the upgrade kinds -/
+def FwTracks (c : KConn) : Prop := (c.fw.map (·.stack), c.t.top) = fwAfter c.kinds
+
+theorem fwAfter_snoc (ks : List UKind) (k : UKind) : fwAfter (ks ++ [k]) = fwStep (fwAfter ks) k := by
+  simp [fwAfter, List.foldl_append]
+
+theorem fwTracks_step (c : KConn) (op : KOp) (h : FwTracks c) : FwTracks (kstep treeF30 c op) := by
+  unfold FwTracks at h ⊢
+  cases op with
+  | sendResponse f => exact h
+  | sendMessage f =>
+    have ht : (tstep true c.t (.sendMessage f)).top = c.t.top := tstep_top_other _ _ _ (by intro n; simp)
+    simpa [kstep, treeF30, ht] using h
+  | flush => exact h
+  | setOutputBuffer n =>
+    have ht : (tstep true c.t (.setOutputBuffer n)).top = c.t.top := tstep_top_other _ _ _ (by intro n; simp)
+    simpa [kstep, treeF30, ht] using h
+  | upgrade k n =>
+    by_cases hsub : c.t.subscribed = true
+    · cases k <;> simp only [kstep, hsub, if_true] <;> exact h
+    · have hsub' : c.t.subscribed = false := by simpa using hsub
+      have ht := tstep_top_upgrade true c.t n hsub'
+      have h1 : (fwAfter c.kinds).1 = c.fw.map (·.stack) := by rw [← h]
+      have h2 : (fwAfter c.kinds).2 = c.t.top := by rw [← h]
+      cases k with
+      | tls => simp [kstep, treeF30, hsub', fwAfter_snoc, fwStep, ht, h1, h2]
+      | snappy => simp [kstep, treeF30, hsub', fwAfter_snoc, fwStep, ht, h2]
+      | deflate => simp [kstep, treeF30, hsub', fwAfter_snoc, fwStep, ht, h2]
+  | subscribe => exact h
+
+theorem fwTracks_run (c : KConn) (ops : List KOp) (h : FwTracks c) : FwTracks (krun treeF30 c ops) := by
+  induction ops generalizing c with
+  | nil => exact h
+  | cons op ops ih => exact ih _ (fwTracks_step c op h)
+
+theorem stale_iff_of_tracks (c : KConn) (h : FwTracks c) : c.Stale ↔ staleAfter c.kinds = true := by
+  unfold FwTracks at h
+  unfold staleAfter KConn.Stale
+  rw [← h]
+  cases hf : c.fw with
+  | none => simp
+  | some w => simp
+
+/-! the four shapes of a list of upgrade kinds (every list is exactly one of them) -/
+
+theorem foldl_fwStep_snd (ks : List UKind) (acc : Option Nat × Nat) :
+    (ks.foldl fwStep acc).2 = acc.2 + ks.length := by
+  induction ks generalizing acc with
+  | nil => rfl
+  | cons k ks ih => rw [List.foldl_cons, ih]; cases k <;> simp [fwStep] <;> omega
+
+theorem fwAfter_snd (ks : List UKind) : (fwAfter ks).2 = ks.length := by
+  simp [fwAfter, foldl_fwStep_snd]
+
+theorem fwAfter_tls (ks : List UKind) (n : Nat) :
+    fwAfter (ks ++ List.replicate n .tls) = ((fwAfter ks).1, ks.length + n) := by
+  induction n with
+  | zero => simp [← fwAfter_snd ks]
+  | succ n ih =>
+    rw [List.replicate_succ', ← List.append_assoc, fwAfter_snoc, ih]
+    simp [fwStep]; omega
+
+/-- no upgrade other than TLS: never stale -/
+theorem staleAfter_only_tls (n : Nat) : staleAfter (List.replicate n .tls) = false := by
+  unfold staleAfter
+  rw [show List.replicate n UKind.tls = [] ++ List.replicate n UKind.tls from rfl, fwAfter_tls]
+  simp [fwAfter]
+
+/-- the last non-TLS upgrade was snappy: not stale -/
+theorem staleAfter_snappy (ks : List UKind) (n : Nat) :
+    staleAfter (ks ++ [.snappy] ++ List.replicate n .tls) = false := by
+  unfold staleAfter
+  rw [fwAfter_tls, fwAfter_snoc]
+  simp [fwStep]
+
+/-- the last upgrade was deflate: not stale -/
+theorem staleAfter_deflate_last (ks : List UKind) : staleAfter (ks ++ [.deflate]) = false := by
+  simp [staleAfter, fwAfter_snoc, fwStep, fwAfter_snd]
+
+/-- deflate, then one or more TLS upgrades: STALE (`c.flateWriter` is the deflate writer of upgrade `|ks| + 1`) -/
+theorem staleAfter_deflate_tls (ks : List UKind) (n : Nat) :
+    staleAfter (ks ++ [.deflate] ++ List.replicate (n + 1) .tls) = true := by
+  unfold staleAfter
+  rw [fwAfter_tls, fwAfter_snoc]
+  simp [fwStep, fwAfter_snd]
+
+/-! the d6aa4e3 tree behaves like the F30b tree as long as no TLS upgrade meets a flate writer -/
+
+theorem kstep_F30_eq (c : KConn) (op : KOp) (h : op.isTls = true → c.fw = none) :
+    kstep treeF30 c op = kstep treeF30b c op := by
+  cases op with
+  | upgrade k n =>
+    cases k with
+    | tls =>
+      have := h rfl
+      simp [kstep, treeF30, treeF30b, this]
+    | snappy => rfl
+    | deflate => rfl
+  | _ => rfl
+
+theorem krun_F30_eq_notls (c : KConn) (ops : List KOp) (h : ops.all (fun o => !o.isTls) = true) :
+    krun treeF30 c ops = krun treeF30b c ops := by
+  induction ops generalizing c with
+  | nil => rfl
+  | cons op ops ih =>
+    simp only [List.all_cons, Bool.and_eq_true, Bool.not_eq_true'] at h
+    rw [krun_cons, krun_cons, kstep_F30_eq c op (by intro ht; rw [h.1] at ht; cases ht), ih _ h.2]
+
+theorem kstep_fw_none (tr : Tree) (c : KConn) (op : KOp) (h : c.fw = none) (hd : ∀ n, op ≠ .upgrade .deflate n) :
+    (kstep tr c op).fw = none := by
+  cases op with
+  | upgrade k n =>
+    cases k with
+    | tls => by_cases hs : c.t.subscribed = true <;> simp [kstep, hs, h]
+    | snappy => by_cases hs : c.t.subscribed = true <;> simp [kstep, hs, h]
+    | deflate => exact absurd rfl (hd n)
+  | _ => exact h
+
+theorem krun_F30_eq (c : KConn) (ops : List KOp) (hf : c.fw = none) (h : NoTlsAfterDeflate ops = true) :
+    krun treeF30 c ops = krun treeF30b c ops := by
+  induction ops generalizing c with
+  | nil => rfl
+  | cons op ops ih =>
+    cases op with
+    | upgrade k n =>
+      cases k with
+      | deflate =>
+        simp only [NoTlsAfterDeflate] at h
+        exact krun_F30_eq_notls c _ (by simp only [List.all_cons, KOp.isTls, Bool.not_false, Bool.true_and]; exact h)
+      | tls =>
+        simp only [NoTlsAfterDeflate] at h
+        rw [krun_cons, krun_cons, kstep_F30_eq c _ (fun _ => hf)]
+        exact ih _ (kstep_fw_none _ c _ hf (by intro n; simp)) h
+      | snappy =>
+        simp only [NoTlsAfterDeflate] at h
+        rw [krun_cons, krun_cons, kstep_F30_eq c _ (fun _ => hf)]
+        exact ih _ (kstep_fw_none _ c _ hf (by intro n; simp)) h
+    | sendResponse f =>
+      simp only [NoTlsAfterDeflate] at h
+      rw [krun_cons, krun_cons, kstep_F30_eq c _ (fun _ => hf)]
+      exact ih _ (kstep_fw_none _ c _ hf (by intro n; simp)) h
+    | sendMessage f =>
+      simp only [NoTlsAfterDeflate] at h
+      rw [krun_cons, krun_cons, kstep_F30_eq c _ (fun _ => hf)]
+      exact ih _ (kstep_fw_none _ c _ hf (by intro n; simp)) h
+    | flush =>
+      simp only [NoTlsAfterDeflate] at h
+      rw [krun_cons, krun_cons, kstep_F30_eq c _ (fun _ => hf)]
+      exact ih _ (kstep_fw_none _ c _ hf (by intro n; simp)) h
+    | setOutputBuffer m =>
+      simp only [NoTlsAfterDeflate] at h
+      rw [krun_cons, krun_cons, kstep_F30_eq c _ (fun _ => hf)]
+      exact ih _ (kstep_fw_none _ c _ hf (by intro n; simp)) h
+    | subscribe =>
+      simp only [NoTlsAfterDeflate] at h
+      rw [krun_cons, krun_cons, kstep_F30_eq c _ (fun _ => hf)]
+      exact ih _ (kstep_fw_none _ c _ hf (by intro n; simp)) h
+
 end Nsq.Proofs.WireStack
